@@ -64,7 +64,8 @@ def run(rep, tier):
                         "feature profiles are probed from the diplomat-tool binary built from the current tree"]
     # depth 2 in both tiers (19 s): depth 1 has no Option<&T> / Option<Box<T>> / DiplomatOption<&T> at all, and the coverage
     # measurement showed their error branches in lowering.rs unreached by the quick tier
-    cfg = "gate2_emit.cfg"
+    # thorough: depth 3 (one more wrapper around every depth-2 non-Result type: 40k cases)
+    cfg = "gate2_emit.cfg" if tier == "quick" else "gate3_emit.cfg"
     r = lib.tlc("gate", "MC_Gate", cfg, workers=8, coverage=False)
     lib.tlc_expect_ok(r, "Gate: operational == declarative")
     rep.add_tlc("Gate", r)
